@@ -201,10 +201,11 @@ pub fn rand_datum(rng: &mut Rng, depth: usize) -> Cell {
         _ => {
             // (quote d), and the other shapes around the abbreviation keywords: other keywords, other lengths, dotted
             let kw = *rng.pick(&["quote", "quote", "quasiquote", "unquote"]);
-            match rng.below(6) {
+            match rng.below(7) {
                 0 => Cell::new_list(vec![Cell::new_symbol(kw)]),
                 1 => Cell::new_list(vec![Cell::new_symbol(kw), rand_datum(rng, depth - 1), rand_datum(rng, depth - 1)]),
                 2 => Cell::new_improper_list(vec![Cell::new_symbol(kw)], Cell::new_symbol("tail")),
+                3 => Cell::new_improper_list(vec![Cell::new_symbol(kw), rand_datum(rng, depth - 1)], Cell::new_symbol("tail")),
                 _ => Cell::new_list(vec![Cell::new_symbol(kw), rand_datum(rng, depth - 1)]),
             }
         }
